@@ -508,6 +508,8 @@ def _idx_candidates(n):
     out = [-1.0, 0.0, 1.0, float(n), float(n + 1), float(n + 7)]
     if n >= 2:
         out.append((n + 1) // 2 + 0.5)
+    if n >= 3:
+        out.append(float(n // 2 + 1))
     return sorted(set(out))
 
 
@@ -638,7 +640,8 @@ def _enum_table(tier):
 
 CRIT_NUM = [1.0, 0.0, 2.5, '1', '2.50', '-1.5', '=1', '<>1', '>1', '>=1', '<1', '<=1', '>0', '<=0', '<>0', '>=2.5', '<-1', '=0']
 CRIT_TEXT = ['a', 'A', 'b', 'abc', '=a', '=A', '<>a', '<>B', '>a', '>=a', '<b', '<=B', '>A', '<ab', '>=abc', '<>abc']
-CRIT_WILD = ['a?', '?', '*', 'a*', '*b', '?*', 'a~?', 'a~*', '=a*', '=?', '<>a*', '<>?', '<>*b', '*B', 'A?', '??', 'a?c', '~**']
+CRIT_WILD = ['a?', '?', '*', 'a*', '*b', '?*', 'a~?', 'a~*', '=a*', '=?', '<>a*', '<>?', '<>*b', '*B', 'A?', '??', 'a?c', '~**',
+             '<>a~?', '<>a~*', '=a~?', '<>A~?', '=A~*']
 CRIT_BOOL = [True, False, 'TRUE', 'false', '=TRUE', '=FALSE', '<>TRUE', '<>FALSE', '>FALSE', '<TRUE', '>=TRUE', '<=FALSE']
 CRIT_OTHER = ['']
 CRITERIA = CRIT_NUM + CRIT_TEXT + CRIT_WILD + CRIT_BOOL + CRIT_OTHER
@@ -861,16 +864,26 @@ FLOORS = {
 }
 
 
+def _thin(gen, keep, of):
+    """Deterministic thinning of an enumeration for the quick tier."""
+    for i, case in enumerate(gen):
+        if i % of < keep:
+            yield case
+
+
 def parts(tier, seed):
     q = tier == 'quick'
+    table, crit = _enum_table(tier), _enum_crit(tier)
+    if q:
+        table, crit = _thin(table, 2, 3), _thin(crit, 2, 3)
     return [
-        ('enum', 'match-sorted', _enum_match_sorted(tier), 150, True),
-        ('enum', 'match-exact', _enum_match_exact(tier), 150, True),
-        ('enum', 'match-wild', _enum_match_wild(tier), 150, True),
-        ('enum', 'index', _enum_index(tier), 150, True),
-        ('enum', 'lookup', _enum_lookup(tier), 100, True),
-        ('enum', 'table', _enum_table(tier), 100, True),
-        ('enum', 'criteria', _enum_crit(tier), 100, True),
-        ('hyp', 'rand-look', 1600 if q else 150000),
-        ('hyp', 'rand-crit', 1600 if q else 150000),
+        ('enum', 'match-sorted', _enum_match_sorted(tier), 150, not q),
+        ('enum', 'match-exact', _enum_match_exact(tier), 150, not q),
+        ('enum', 'match-wild', _enum_match_wild(tier), 150, not q),
+        ('enum', 'index', _enum_index(tier), 150, not q),
+        ('enum', 'lookup', _enum_lookup(tier), 100, not q),
+        ('enum', 'table', table, 100, not q),
+        ('enum', 'criteria', crit, 100, not q),
+        ('hyp', 'rand-look', 1600 if q else 100000),
+        ('hyp', 'rand-crit', 1600 if q else 100000),
     ]
